@@ -920,6 +920,11 @@ class _Simu(_IObserver, _params.Updatable, ABC):
             # and whatever else the simulation keeps per element / integration point
             self._Init_internal_state()
 
+    def _Prepare_mesh(self, mesh: Mesh) -> Mesh:
+        """Returns the mesh the simulation works on for a mesh handed to the setter or read back from a file
+        (the mesh itself, unless the simulation needs its own kind of elements)."""
+        return mesh
+
     def _Init_internal_state(self) -> None:
         """Resets the internal variables a simulation keeps besides its solution fields (history field, plastic state).\n
         Called when the mesh is replaced: they belong to the elements of the previous mesh."""
@@ -987,9 +992,13 @@ class _Simu(_IObserver, _params.Updatable, ABC):
         mesh = self.__listMesh[index]
 
         if isinstance(mesh, str):
+            # a mesh file only holds coordinates, connectivity and tags
             mesh = Load_Mesh(Folder.Join(self.__Get_meshes_folder(), mesh))
+            mesh = self._Prepare_mesh(mesh)
 
         self.__mesh = mesh
+        # as for a mesh given to the constructor or to the setter: the simulation must hear about its modifications
+        mesh._Add_observer(self)
 
         # switching to another mesh in the history changes the connectivity
         clear_cached_computed_values(self)
